@@ -50,6 +50,13 @@ of ANY table of the connection (#entries, #postings, the typed tables #transacti
       names.  MC: MC_Isolate_expr (2 threads, every interleaving; OwnOperands, OwnNames); non-vacuity: one operand list
       per function (MC_Isolate_operands) and one name -> position map for all subquery tables (MC_Isolate_subcols)
       are refuted.  S2C families func, funcw, subq, subq3; the random jobs of C2S draw calls and subqueries too.
+      DELIVERY of the results (same modules): the statement is handed to a cursor the thread made or to the connection's
+      own execute() shortcut (job.via), and the thread is descheduled AFTER execute() has returned and between its
+      fetches (job.fetch: description + fetchone / fetchmany(n) / fetchall per step; actions Finish / Fetch, variables
+      store -- what a cursor holds -- and recv -- what the thread received; invariant OwnResults).  MC: MC_Isolate_deliver
+      (2 threads, every interleaving); non-vacuity: one cursor kept by the connection behind its shortcut
+      (MC_Isolate_results) is refuted.  S2C families deliver, deliverp, deliver3; C2S: the random jobs draw via / fetch
+      plans, the recorded `end' lines carry the rows and the descriptions every thread RECEIVED.
 """
 import json
 import random
@@ -387,6 +394,9 @@ def run(ctx):
         'aggregates above calls and the same function nested in its own operand are not driven.  The subquery of a '
         'FROM-subquery renames plain columns (no WHERE, no pause point inside): its own scan is evaluated when the outer '
         'scan opens and its interleavings are those of a plain scan',
+        'Isolate: delivery steps are driven by the harness thread itself (it hands the turn over after execute() has '
+        'returned and before every fetch); a description is projected to the kinds of its columns (the statements name '
+        'their targets c<n> / f<n> / p<n> / q<n>); rowcount / rownumber / iteration over the cursor are not observed',
     ]
     rng = ctx.rng
     sched.register()
@@ -540,11 +550,13 @@ ICOVER = ('ParseStart', 'Token', 'ParseEnd', 'Begin', 'From', 'Resolve', 'Bind',
           'Const', 'EmitRow')
 ECOVER = ('Begin', 'From', 'Inner', 'SubTable', 'Resolve', 'Bind', 'CompilePause', 'Build', 'NextRow', 'Finish', 'Test', 'Column',
           'Yield', 'Const', 'EmitRow', 'Arg1', 'ArgYield', 'Arg2', 'Apply')
+DCOVER = ('Begin', 'From', 'Resolve', 'Bind', 'Build', 'NextRow', 'Finish', 'Test', 'Column', 'Yield', 'EmitRow', 'Fetch')
 ISO_LIMITS = {'params': (20, None), 'star': (20, None), 'rows': (70, None), 'tables': (110, None), 'mix3': (120, 3000),
               'sep3': (80, 2000), 'parse': (20, None), 'parse3': (40, 600), 'typed': (35, None),
               'typed3': (70, None), 'func': (35, None), 'funcw': (70, 1500), 'subq': (56, None),
-              'subq3': (60, 200)}        # schedules replayed per family (quick, thorough); None = all
-ISO_REPEAT = {'params': 2, 'star': 1, 'rows': 3, 'typed': 3, 'func': 2}     # small families: every schedule with several column choices
+              'subq3': (60, 200), 'deliver': (None, None), 'deliverp': (None, None),
+              'deliver3': (60, 1500)}        # schedules replayed per family (quick, thorough); None = all
+ISO_REPEAT = {'params': 2, 'star': 1, 'rows': 3, 'typed': 3, 'func': 2, 'deliverp': 2}     # small families: every schedule with several column choices
 
 
 def atom(k, i=0):
@@ -577,6 +589,9 @@ def random_jobs(rng):
     hot = pick_table()
     hot_op = rng.choice(('add', 'first'))
     of_conn = {c: ledgers[rng.choice((1, 2))] for c in range(1, nconn + 1)}
+    # how the statements are handed over and the results taken: the threads of a run tend to use the same entry point
+    hot_via = rng.choice(('cursor', 'conn', 'conn'))
+    plans = ([], [], [], [0], [0], [1, 0], [2, 0], [1, 1, 0], [3, 0], [1], [2, 1])
     conns = list(range(1, nconn + 1)) + [rng.randint(1, nconn) for _ in range(nt - nconn)]
     rng.shuffle(conns)
     jobs = []
@@ -608,7 +623,8 @@ def random_jobs(rng):
                      'hi': rng.choice(keys + [max(keys) + 1]), 'lit': rng.random() < 0.4,
                      'wpause': star and not sub and rng.random() < 0.6, 'ppause': rng.random() < 0.5, 'ty': ty,
                      'parse': rng.choice((0, 0, 0, 0, 0, 0, 1, 2)) if not (sub or heavy) else rng.choice((0,) * 12 + (1, 2)),
-                     'sub': sub})
+                     'sub': sub, 'via': hot_via if rng.random() < 0.7 else rng.choice(('cursor', 'conn')),
+                     'fetch': list(rng.choice(plans))})
     return jobs
 
 
@@ -616,7 +632,7 @@ def iso_key(jobs, what):
     return 'exec:%s:%s' % (iso.conn_mode(jobs), what)
 
 
-def iso_judge(ctx, leg, case, desc, s, results, excs, texts, expected):
+def iso_judge(ctx, leg, case, desc, s, results, excs, texts, expected, expdesc=None):
     """one concurrent run against the rows the specification emitted (expected: {tid: rows} or None); True = clean"""
     jobs = case.jobs
     what = ' ;; '.join('T%d[conn %d]: %s' % (t, jobs[t - 1]['conn'], texts[t]) for t in sorted(texts))
@@ -643,6 +659,13 @@ def iso_judge(ctx, leg, case, desc, s, results, excs, texts, expected):
                               'thread %d does not get the rows of serial execution (%s)' % (tid, what), desc, leg,
                               expected, results)
                 return False
+    if expdesc is not None and ok:
+        for tid in sorted(expdesc):
+            if case.descs.get(tid) != expdesc[tid]:
+                ctx.violation(iso_key(jobs, 'description:' + iso.shape(jobs[tid - 1])),
+                              'thread %d does not read the description of its own statement from the cursor its execute() '
+                              'returned (%s)' % (tid, what), desc, leg, expdesc, dict(case.descs))
+                return False
     return ok
 
 
@@ -663,7 +686,8 @@ def iso_record(ctx, nruns, rng):
         nt = len(jobs)
         lines.append({'k': 'begin', 'id': rid, 'jobs': jobs})
         lines += [{'k': 'grant', 'id': rid, 't': t} for t in s.log]
-        lines.append({'k': 'end', 'id': rid, 'rows': [results[t] for t in range(1, nt + 1)]})
+        lines.append({'k': 'end', 'id': rid, 'rows': [results[t] for t in range(1, nt + 1)],
+                      'desc': [case.descs.get(t, []) for t in range(1, nt + 1)]})
         if i % 4 == 0:      # the same statements one after the other on the same connections
             serial = iso.run_serial(case)
             for t in range(1, nt + 1):
@@ -699,7 +723,8 @@ def isolate_start(ctx):
             rows = copy.deepcopy([m['rows'][u] for u in sorted(m['rows'])])
             rows[t - 1][n][-1] += 1
             src = [ln for ln in lines if ln['id'] == rid and ln['k'] in ('begin', 'grant')]
-            probe = [dict(ln, id=-1) for ln in src] + [{'k': 'end', 'id': -1, 'rows': rows}]
+            end = next(ln for ln in lines if ln['id'] == rid and ln['k'] == 'end')
+            probe = [dict(ln, id=-1) for ln in src] + [{'k': 'end', 'id': -1, 'rows': rows, 'desc': end['desc']}]
             break
     path = ctx.path('c20_isolate_trace.ndjson')
     with open(path, 'w') as f:
@@ -731,6 +756,9 @@ def isolate_start(ctx):
         out['nv5'] = ctx.tlc('MC_Isolate', 'MC_Isolate_operands.cfg', leg='MC-nonvacuity', expect_violation='OwnOperands',
                              workers=2)
         out['nv6'] = ctx.tlc('MC_Isolate', 'MC_Isolate_subcols.cfg', leg='MC-nonvacuity', expect_violation='OwnNames', workers=2)
+        # delivery of the results through the connection's execute() shortcut / a cursor of the thread's own
+        out['mcd'] = ctx.tlc('MC_Isolate', 'MC_Isolate_deliver.cfg', leg='MC', workers=4, must_cover=DCOVER)
+        out['nv7'] = ctx.tlc('MC_Isolate', 'MC_Isolate_results.cfg', leg='MC-nonvacuity', expect_violation='OwnResults', workers=2)
         return out
     pool = cf.ThreadPoolExecutor(2)
     fut = pool.submit(work)
@@ -745,7 +773,7 @@ def isolate_finish(ctx, bg):
     out = bg['future'].result()      # a MachineryError of the background thread is raised here
     out.update(bg['future2'].result())
     ctx.leg('MC', isolate_background_wait_s=round(time.monotonic() - t0, 1))
-    for k in ('mc2', 'mc3', 'mc3t', 'mce'):
+    for k in ('mc2', 'mc3', 'mc3t', 'mce', 'mcd'):
         if k in out and out[k].violated:
             ctx.violation('spec:isolate:' + ','.join(out[k].violated), 'TLC violates the property on the property-conforming '
                           'mechanism of Isolate', {'behaviour': out[k].behaviour[:3000]}, 'MC')
@@ -756,7 +784,8 @@ def isolate_finish(ctx, bg):
     ctx.leg('MC', isolate_compiler_per_connection_schedule=steps(out['nv1']), isolate_rowid_memo_schedule=steps(out['nv2']),
             isolate_process_wide_parser_schedule=steps(out['nv3']), isolate_lazy_table_rows_schedule=steps(out['nv4']),
             isolate_operand_list_per_function_schedule=steps(out['nv5']),
-            isolate_shared_subquery_columns_schedule=steps(out['nv6']))
+            isolate_shared_subquery_columns_schedule=steps(out['nv6']),
+            isolate_one_cursor_per_connection_schedule=steps(out['nv7']))
     # ---- S2C
     rng = bg['rng']
     fams = {}
@@ -764,7 +793,7 @@ def isolate_finish(ctx, bg):
         if isinstance(p, dict) and 'jobs' in p:
             fams.setdefault(p['family'], {'scheds': {}})['jobs'] = p['jobs']
         elif isinstance(p, dict) and 'sched' in p:
-            fams.setdefault(p['family'], {'scheds': {}})['scheds'].setdefault(tuple(p['sched']), p['out'])
+            fams.setdefault(p['family'], {'scheds': {}})['scheds'].setdefault(tuple(p['sched']), [p['out'], p['desc']])
     if set(fams) != set(ISO_LIMITS) or any('jobs' not in f or not f['scheds'] for f in fams.values()):
         raise MachineryError('Gen_Isolate emitted families %s' % sorted(fams))
     total = 0
@@ -774,7 +803,8 @@ def isolate_finish(ctx, bg):
         outs = {json.dumps(o) for o in scheds.values()}
         if len(outs) != 1:
             raise MachineryError('the specification emits schedule-dependent rows in family %s' % name)
-        exp = {t + 1: json.loads(next(iter(outs)))[t] for t in range(nt)}
+        exp = {t + 1: json.loads(next(iter(outs)))[0][t] for t in range(nt)}
+        expdesc = {t + 1: json.loads(next(iter(outs)))[1][t] for t in range(nt)}
         keys = sorted(scheds)
         limit = ISO_LIMITS[name][0 if ctx.quick else 1]
         if limit is not None and len(keys) > limit:
@@ -801,7 +831,7 @@ def isolate_finish(ctx, bg):
                                           dict(desc, kind='iso-serial', tid=t), 'S2C', exp[t],
                                           repr(got[t]) if isinstance(got[t], iso.SerialFailure) else got[t])
                 s, results, excs, texts = iso.run_case(case, order=list(sc))
-                ok = iso_judge(ctx, 'S2C', case, desc, s, results, excs, texts, exp)
+                ok = iso_judge(ctx, 'S2C', case, desc, s, results, excs, texts, exp, expdesc)
                 ctx.case(json.dumps(['iso', name, sc, pick]), nontrivial=len(set(sc)) > 1)
                 ctx.traces += 1
                 nrun += 1
@@ -845,6 +875,7 @@ def iso_replay(ctx, rep):
     jobs = case_d['jobs']
     case = iso.Case(jobs, case_d['pick'])
     serial = iso.run_serial(case)
+    serial_descs = dict(case.descs)
     print('replay: style', case.describe())
     if case_d['kind'] == 'iso-serial':
         print('replay: serial rows', serial[case_d['tid']], 'expected', rep.get('expected'))
@@ -861,10 +892,14 @@ def iso_replay(ctx, rep):
     print('  concurrent', results)
     print('  serial    ', serial)
     same = results == serial and not excs and not s.diverged and not s.mismatch
+    if same and case.descs != serial_descs:
+        print('  descriptions read: concurrent', case.descs, 'serial', serial_descs)
+        same = False
     if same:
         # let TLC judge the run again
         lines = [{'k': 'begin', 'id': 1, 'jobs': jobs}] + [{'k': 'grant', 'id': 1, 't': t} for t in s.log]
-        lines.append({'k': 'end', 'id': 1, 'rows': [results[t] for t in range(1, len(jobs) + 1)]})
+        lines.append({'k': 'end', 'id': 1, 'rows': [results[t] for t in range(1, len(jobs) + 1)],
+                      'desc': [case.descs.get(t, []) for t in range(1, len(jobs) + 1)]})
         path = ctx.path('replay_isolate.ndjson')
         with open(path, 'w') as f:
             for ln in lines:
